@@ -78,6 +78,27 @@ def gen_case(rng):
     ops = []
     nextw = 1
     ctr = rng.randrange(0, 200)
+    if rng.random() < 0.35:
+        # prefix: 2-5 disjoint domains written by short-lived writers, in random order
+        pts = sorted(rng.sample(LOW + [7, 17, 33, 45], rng.randrange(4, 11)))
+        pairs = [(pts[i], pts[i + 1]) for i in range(0, len(pts) - 1, 2)]
+        if rng.random() < 0.5:
+            pairs = [(pts[i], pts[i + 1]) for i in range(len(pts) - 1) if rng.random() < 0.7]   # adjacency
+        rng.shuffle(pairs)
+        for (s0, e0) in pairs[:5]:
+            n = rng.choice([1, 2, 3, e0 - s0 if e0 - s0 <= 8 else 4])
+            data = [(ctr + i) % 251 for i in range(n)]
+            ctr += n
+            w = nextw
+            nextw += 1
+            ops += [{"op": "open", "w": w, "start": s0, "end": rng.choice([0, 0, e0])},
+                    {"op": "write", "w": w, "data": data},
+                    {"op": "commit", "w": w, "end": e0},
+                    {"op": "close", "w": w}]
+            sim.dom.append([s0, e0])
+            sim.dom.sort()
+            sim.dead.append(w)
+        nops += len(ops)
     while len(ops) < nops:
         live = [w for w in sim.w]
         x = rng.random()
@@ -186,7 +207,15 @@ def gen_case(rng):
                 a = rng.choice([t for t in ALPHA if t <= b] or [0])
                 if sim.dom and rng.random() < 0.6:
                     s, e = rng.choice(sim.dom)
-                    a = max(0, min(b, rng.choice([s, s + 1, (s + e) // 2, e])))
+                    a = max(0, min(b, rng.choice([s, s + 1, s + 2, s + 3, s + 5, (s + e) // 2, e - 1, e])))
+                if sim.dom and rng.random() < 0.35:
+                    # from inside (or the byte end of) one domain up to the start of a later one
+                    i = rng.randrange(len(sim.dom))
+                    j = rng.randrange(i, len(sim.dom))
+                    s, e = sim.dom[i]
+                    a = rng.choice([s + 1, s + 2, s + 3, s + 4, e - 1, e])
+                    b = min(lim, rng.choice([sim.dom[j][0], sim.dom[j][0] + 1, sim.dom[j][1]]))
+                    a = max(0, min(a, MAXTS))
                 if rng.random() < 0.05:
                     a, b = b, a
             else:
